@@ -404,6 +404,8 @@ class SymInt:
         raise Refuse('int() of a symbolic integer outside a patched module')
 
     def __float__(self):
+        if _in_percent_formatting():
+            return 0.0
         raise Refuse('float() of a symbolic integer')
 
     def __iter__(self):
